@@ -1,6 +1,18 @@
+mod c10;
+mod c11;
+mod c12;
+mod c13;
+mod c14;
+mod kes;
+
 fn main() {
     let ctx = mc_core::Ctx::from_args();
     match ctx.prop.as_str() {
-        p => mc_core::report::machinery_failure(&format!("mc-crypto does not serve {p} yet")),
+        "C10" => c10::run(ctx),
+        "C11" => c11::run(ctx),
+        "C12" => c12::run(ctx),
+        "C13" => c13::run(ctx),
+        "C14" => c14::run(ctx),
+        p => mc_core::report::machinery_failure(&format!("mc-crypto does not serve {p}")),
     }
 }
